@@ -45,6 +45,13 @@ def cmd_ser(v, kind, cell):
         if res.val(1) is not True:
             out.append(Problem('C17', 'serialize returned an error', ''))
         out += chk_big('C17', res.get('rt'), v, 'deserialize(serialize(x))', kind)
+        rtb = res.get('rtb')
+        if 'seq?' not in got_toks and rtb != ('missing',):
+            if isinstance(rtb, Err):
+                out.append(Problem('C17', 'deserialize(serialize(x)) fails in a non-self-describing (untagged, length-prefixed) format: the value '
+                                   'does not ask the reader for what the writer wrote (tuple of 2 = (i8, seq of u32))', ''))
+            else:
+                out += chk_big('C17', rtb, v, 'deserialize(serialize(x)) through the strict binary reader', kind)
         return out
 
     return Cmd(line, check, cell=cell, prop='C17')
@@ -111,6 +118,8 @@ def workload(tier, seed, scale=1.0):
                     return [Problem({'C17', 'C14'}, 'Sign serialize panicked', '')]
                 if t != ('tokens', ['i%d' % sg]) or res.val(1) is not True:
                     return [Problem('C17', 'Sign does not serialize as the i8 -1/0/1', repr(t))]
+                if res.get('rtb') != sg:
+                    return [Problem('C17', 'Sign does not round-trip through the strict binary reader', repr(res.get('rtb')))]
                 return []
             return Cmd('sersign %d' % sg, check, cell=('sersign', sg), prop='C17')
         cmds.append(mk())
